@@ -64,7 +64,9 @@ func (c *compression) compress(req *http.Request, resp *http.Response) bool {
 		return false
 	}
 
+	// the length of the compressed body is unknown
 	resp.Header.Del(keyContentLength)
+	resp.ContentLength = -1
 	resp.Header.Set(keyContentEncoding, "gzip")
 	resp.Header.Add(keyVary, keyContentEncoding)
 
